@@ -710,3 +710,84 @@ func init() {
 			planItem{register(worldScenario("C16", specEventsKeyOtherCreate, eventOracle)), 2, 3})
 	}
 }
+
+// C06: every store read of every kind of write may fail (one at a time): a write whose read fails AFTER its entry is persisted
+// must not report an error. The writes do not compete for funds, so each succeeds in the default schedule and one deviation
+// (the fault) reaches every read of each of them.
+var specFaultReadsEachKind = worldSpec{Name: "fault-reads-each-kind", FaultReads: true,
+	Seed: seedTxs(ledger.Postings{post("world", "a", 10)}, ledger.Postings{post("world", "b", 10)}),
+	Gen1: []reqSpec{{Name: "r0", Kind: "revert", TxID: 0},
+		{Name: "m1", Kind: "savemeta", TargetType: ledger.MetaTargetTypeTransaction, TargetID: big.NewInt(1)},
+		{Name: "d1", Kind: "delmeta", TargetType: ledger.MetaTargetTypeTransaction, TargetID: big.NewInt(1), Key: "d1"}},
+}
+
+var specFaultReadsKeyed = worldSpec{Name: "fault-reads-keyed", FaultReads: true,
+	Seed: seedTxs(ledger.Postings{post("world", "a", 10)}, ledger.Postings{post("world", "b", 10)}),
+	Gen1: []reqSpec{{Name: "r0", Kind: "revert", TxID: 0, IK: "k1"}, {Name: "c1", Kind: "create", Script: sendScript(5, "@world", "@c"), IK: "k2"}},
+}
+
+func init() {
+	b06, b16 := plans["C06"], plans["C16"]
+	plans["C06"] = func() []planItem {
+		return append(b06(),
+			planItem{register(worldScenario("C06", specFaultReadsEachKind, ackOracle)), 1, 2},
+			planItem{register(worldScenario("C06", specFaultReadsKeyed, ackOracle)), 1, 2})
+	}
+	plans["C16"] = func() []planItem {
+		return append(b16(), planItem{register(worldScenario("C16", specFaultReadsEachKind, eventOracle)), 1, 2})
+	}
+}
+
+// C02: two requests that both draw on one account through a BOUNDED overdraft (the third leaf form of a source, next to plain
+// and unbounded): together they exceed balance + overdraft
+var specOverdraftBoth = worldSpec{Name: "overdraft-both-bounded", Seed: seedTxs(ledger.Postings{post("world", "a", 10)}),
+	Gen1: []reqSpec{{Name: "s1", Kind: "create", Script: sendScript(15, "@a allowing overdraft up to [X 10]", "@b"), Overdraft: map[string]string{"a": "10"}},
+		{Name: "s2", Kind: "create", Script: sendScript(15, "@a allowing overdraft up to [X 10]", "@c"), Overdraft: map[string]string{"a": "10"}}}}
+
+var specOverdraftEmpty = worldSpec{Name: "overdraft-empty-account",
+	Gen1: []reqSpec{{Name: "s1", Kind: "create", Script: sendScript(100, "@payer allowing overdraft up to [X 100]", "@b"), Overdraft: map[string]string{"payer": "100"}},
+		{Name: "s2", Kind: "create", Script: sendScript(100, "@payer allowing overdraft up to [X 100]", "@c"), Overdraft: map[string]string{"payer": "100"}},
+		{Name: "s3", Kind: "create", Script: "send [X *] (\n  source = @payer allowing overdraft up to [X 100]\n  destination = @d\n)\n", Overdraft: map[string]string{"payer": "100"}}}}
+
+func init() {
+	b02 := plans["C02"]
+	plans["C02"] = func() []planItem {
+		items := b02()
+		b, d := items[0].Quick, items[0].Thorough
+		return append(items, planItem{register(worldScenario("C02", specOverdraftBoth, spendOracle)), b, d},
+			planItem{register(worldScenario("C02", specOverdraftEmpty, spendOracle)), 2, 3})
+	}
+}
+
+// C11 / C07: the reference (the idempotency key) is already in the store when the request arrives, and the store's read path
+// fails for good from some read on, or the request's context is done by the time the lookup runs: a lookup that cannot be
+// answered must fail the request, not pass for "not found".
+func seedRefAndKey(st *memstore.Store) {
+	tx := ledger.NewTransaction().WithPostings(post("world", "a", 10)).WithID(big.NewInt(0)).WithReference("r").WithMetadata(metadata.Metadata{"tag": "seeded"})
+	st.Seed(ledger.NewTransactionLog(tx, map[string]metadata.Metadata{}).WithIdempotencyKey("k"))
+}
+
+var (
+	specRefPersistedReadsDown = worldSpec{Name: "ref-persisted-reads-down", ReadsGoDown: true, Seed: seedRefAndKey,
+		Gen1: []reqSpec{{Name: "c1", Kind: "create", Script: sendScript(5, "@world", "@b"), Ref: "r"}, create("c2", 5, "@world", "@c")}}
+	specRefPersistedCancel = worldSpec{Name: "ref-persisted-cancel", Seed: seedRefAndKey,
+		Gen1: []reqSpec{{Name: "c1", Kind: "create", Script: sendScript(5, "@world", "@b"), Ref: "r", Cancellable: true}, create("c2", 5, "@world", "@c")}}
+	specKeyPersistedReadsDown = worldSpec{Name: "key-persisted-reads-down", ReadsGoDown: true, Seed: seedRefAndKey,
+		Gen1: []reqSpec{{Name: "c1", Kind: "create", Script: sendScript(5, "@world", "@b"), IK: "k"}, create("c2", 5, "@world", "@c")}}
+	specKeyPersistedCancel = worldSpec{Name: "key-persisted-cancel", Seed: seedRefAndKey,
+		Gen1: []reqSpec{{Name: "c1", Kind: "create", Script: sendScript(5, "@world", "@b"), IK: "k", Cancellable: true}, create("c2", 5, "@world", "@c")}}
+)
+
+func init() {
+	b07, b11 := plans["C07"], plans["C11"]
+	plans["C11"] = func() []planItem {
+		return append(b11(),
+			planItem{register(worldScenario("C11", specRefPersistedReadsDown, refOracle)), 1, 2},
+			planItem{register(worldScenario("C11", specRefPersistedCancel, refOracle)), 1, 2})
+	}
+	plans["C07"] = func() []planItem {
+		return append(b07(),
+			planItem{register(worldScenario("C07", specKeyPersistedReadsDown, ikOracle)), 1, 2},
+			planItem{register(worldScenario("C07", specKeyPersistedCancel, ikOracle)), 1, 2})
+	}
+}
